@@ -335,17 +335,20 @@ def formula_attr_names(formulas):
 
 
 _ROOT_PID = os.getpid()          # the check's own process: pool workers are forked from it
+_TMP = None
 
 
 def tmp_root() -> str:
     """a directory on sys.path, shared by the workers of one run, for the generated reform modules
     and extension packages (the test runner takes reforms by dotted path and extensions by package
     name); removed when the run ends"""
-    d = os.path.join(tempfile.gettempdir(), f"ofvc14_{_ROOT_PID}")
-    os.makedirs(d, exist_ok=True)
-    if d not in sys.path:
-        sys.path.append(d)
-    return d
+    global _TMP
+    if _TMP is None or not os.path.isdir(_TMP):
+        _TMP = os.path.join(tempfile.gettempdir(), f"ofvc14_{_ROOT_PID}")
+        os.makedirs(_TMP, exist_ok=True)
+    if _TMP not in sys.path:
+        sys.path.append(_TMP)
+    return _TMP
 
 
 @atexit.register
@@ -703,7 +706,7 @@ class Real(Ctx):
 
     # -- simulations
 
-    def simulate(self, t, plan, spiral=None):
+    def simulate(self, t, plan, spiral=None, probe_absent=False):
         """one fresh simulation: the applicable inputs, then the requests in order"""
         import numpy
         from openfisca_core.simulations import SimulationBuilder
@@ -727,6 +730,11 @@ class Real(Ctx):
                 out.append(f"input:{name}:ERR:{type(e).__name__}")
         for name, y, m in plan["requests"]:
             v = t.variables.get(name)
+            if v is None and not probe_absent:
+                # an unknown name is refused (VariableNotFoundError, whose message costs a package-metadata
+                # lookup): asked for real in one pass per system only
+                out.append("ERR:VariableNotFoundError")
+                continue
             dp = "month" if v is None else str(getattr(v.definition_period, "value", v.definition_period))
             period = str(y) if dp == "year" else f"{y}-{m:02d}"
             try:
